@@ -60,7 +60,7 @@ def run(ctx):
                        'ties straddling a cut are checked by the inequalities only']
     rng = np.random.default_rng(ctx.seed)
     quick = ctx.tier == 'quick'
-    cfgs = ['Rounding_c03_q.cfg'] if quick else ['Rounding_c03_q.cfg', 'Rounding_c03_t1.cfg', 'Rounding_c03_t2.cfg']
+    cfgs = ['Rounding_c03_q.cfg', 'Rounding_c03_tier.cfg'] if quick else ['Rounding_c03_q.cfg', 'Rounding_c03_tier.cfg', 'Rounding_c03_t1.cfg', 'Rounding_c03_t2.cfg']
     for cfg in cfgs:
         cases = RD.emit(ctx, cfg, 'Rounding ltr: ' + cfg, workers=16)
         order = rng.permutation(len(cases))
@@ -77,6 +77,8 @@ def run(ctx):
                 ctx.violation('svd', msg, case=case)
     mcfg = 'Rounding_c03_m.cfg' if quick else 'Rounding_c03_t3.cfg'
     cases = RD.emit(ctx, mcfg, 'Rounding D=2 (matrix factorisations): ' + mcfg, workers=16)
+    tc = RD.emit(ctx, 'Rounding_c03_tierm.cfg', 'Rounding D=2 with thresholds at relative size 1e-9 (tier encoding)', workers=16)
+    cases = cases + [tc[j] for j in rng.permutation(len(tc))[:(3000 if quick else len(tc))]]
     order = rng.permutation(len(cases))
     if ctx.replay_filter and ctx.replay_filter['case'].get('d', 0) == 2:
         cases, order = [ctx.replay_filter['case']], [0]
@@ -88,6 +90,8 @@ def run(ctx):
         else:
             fn = ['skeleton', 'svd'][int(rng.integers(2))]
             gt = ['l', 'm', 'r'][int(rng.integers(3))]
+            if RD.tiered(case):
+                fn = 'skeleton'          # matrix_svd works through a Gram matrix: sqrt(eps) floor
         msg = RD.replay_matrix(ctx, case, rng, fn, give_to=gt, scale_pow=sp)
         reduced = any(o['ranks'][0] < RD.input_ranks(case)[0] for o in case['outcomes'])
         ctx.case(key=(case['ent'], case['T'], case['cap'], case['dir'], fn, gt), nontrivial=reduced)
